@@ -91,6 +91,29 @@ func (ex *Exec) upper(t *Term) *big.Int {
 				return q.Add(q, bi(1))
 			}
 		}
+	case "+", "*":
+		// sums and products of terms that are known to be non-negative and bounded (every bounded term here is a
+		// machine word or a flag, so a known upper bound implies 0 <= t)
+		acc := bi(0)
+		if t.op == "*" {
+			acc = bi(1)
+		}
+		for _, a := range t.args {
+			if a.IsConst() && a.val.Sign() < 0 {
+				return nil
+			}
+			u := ex.upper(a)
+			if u == nil {
+				return nil
+			}
+			m := new(big.Int).Sub(u, bi(1))
+			if t.op == "+" {
+				acc.Add(acc, m)
+			} else {
+				acc.Mul(acc, m)
+			}
+		}
+		return acc.Add(acc, bi(1))
 	}
 	return nil
 }
@@ -183,6 +206,22 @@ func (ex *Exec) binop(op token.Token, x, y *Term, mt mtype, where string) *Term 
 		if r := wrap(s); r != nil {
 			return r
 		}
+		if uy := ex.upper(y); !mt.Signed && x.IsConst() && uy != nil && x.val.Cmp(new(big.Int).Sub(uy, bi(1))) >= 0 {
+			return s // constant minus something no larger: cannot wrap
+		}
+		if ux := ex.upper(x); !mt.Signed && y.IsConst() && ux != nil && ux.Cmp(bi(4)) <= 0 {
+			// a flag (or a value below 4) minus a constant: enumerate, so that (f - 1) is seen as the mask it is
+			var r *Term
+			for v := ux.Int64() - 1; v >= 0; v-- {
+				k := IntC(new(big.Int).Mod(new(big.Int).Sub(bi(v), y.val), mod))
+				if r == nil {
+					r = k
+				} else {
+					r = Ite(Eq(x, IntI(v)), k, r)
+				}
+			}
+			return r
+		}
 		r := ex.freshWord("sub", mt)
 		w := Fresh("wrap", SInt)
 		ex.st.ranges[w] = bi(2)
@@ -222,9 +261,22 @@ func (ex *Exec) binop(op token.Token, x, y *Term, mt mtype, where string) *Term 
 			if r := wrap(s); r != nil {
 				return r
 			}
+			if ux := ex.upper(x); ux != nil && !mt.Signed && new(big.Int).Mul(new(big.Int).Sub(ux, bi(1)), pow2(int(y.val.Int64()))).Cmp(mod) < 0 {
+				return s // cannot wrap
+			}
 			return Mod(s, IntC(mod))
 		}
+	case token.AND_NOT:
+		if r := ex.bitSpecial(op, x, y, mt); r != nil {
+			return r
+		}
+		if y.IsConst() && !mt.Signed {
+			return ex.binop(token.AND, x, IntC(new(big.Int).Xor(new(big.Int).Sub(mod, bi(1)), y.val)), mt, where)
+		}
 	case token.AND:
+		if r := ex.bitSpecial(op, x, y, mt); r != nil {
+			return r
+		}
 		if x.IsConst() && !y.IsConst() {
 			x, y = y, x
 		}
@@ -238,6 +290,11 @@ func (ex *Exec) binop(op token.Token, x, y *Term, mt mtype, where string) *Term 
 				if y.val.Sign() == 0 {
 					return IntI(0)
 				}
+				if m1.Cmp(bi(256)) == 0 {
+					if b := ex.byteOfWord(x); b != nil {
+						return b
+					}
+				}
 				return Mod(x, IntC(m1))
 			}
 			if x.op == "ite" && x.args[1].IsConst() && x.args[2].IsConst() {
@@ -250,6 +307,9 @@ func (ex *Exec) binop(op token.Token, x, y *Term, mt mtype, where string) *Term 
 			Implies(And(Le(x, one), Le(y, one)), Eq(Eq(r, one), And(Eq(x, one), Eq(y, one))))), where+":and")
 		return r
 	case token.OR:
+		if r := ex.bitSpecial(op, x, y, mt); r != nil {
+			return r
+		}
 		if x.IsConst() && y.IsConst() {
 			return IntC(new(big.Int).Or(x.val, y.val))
 		}
@@ -269,6 +329,9 @@ func (ex *Exec) binop(op token.Token, x, y *Term, mt mtype, where string) *Term 
 		), where+":or")
 		return r
 	case token.XOR:
+		if r := ex.bitSpecial(op, x, y, mt); r != nil {
+			return r
+		}
 		if x.IsConst() && y.IsConst() {
 			return IntC(new(big.Int).Xor(x.val, y.val))
 		}
@@ -355,7 +418,10 @@ func (ex *Exec) unop(op token.Token, x *Term, mt mtype, where string) *Term {
 		if x.IsConst() {
 			return IntC(new(big.Int).Mod(new(big.Int).Neg(x.val), pow2(mt.W)))
 		}
-		// -x mod 2^w = ite(x==0,0,2^w-x)
+		// -x mod 2^w = ite(x==0,0,2^w-x); for a 0/1 flag that is the all-zeros / all-ones mask
+		if ub := ex.upper(x); ub != nil && ub.Cmp(bi(2)) <= 0 {
+			return Ite(Eq(x, IntI(0)), IntI(0), IntC(new(big.Int).Sub(pow2(mt.W), bi(1))))
+		}
 		return Ite(Eq(x, IntI(0)), IntI(0), Sub(IntC(pow2(mt.W)), x))
 	case token.XOR:
 		if ex.mode.BV {
@@ -406,8 +472,178 @@ func (ex *Exec) convert(x *Term, from, to mtype, where string) *Term {
 	}
 	// narrowing
 	ub := ex.upper(x)
+	if to.W == 8 && !to.Signed && x.op == "div" {
+		if b := ex.byteOfWord(x); b != nil {
+			return b
+		}
+	}
 	if ub != nil && ub.Cmp(pow2(to.W)) <= 0 && !to.Signed {
 		return x
 	}
+	if to.W == 8 && !to.Signed {
+		if b := ex.byteOfWord(x); b != nil {
+			return b
+		}
+	}
 	return Mod(x, IntC(pow2(to.W)))
+}
+
+// byteOfWord: byte(w >> 8k) for a machine word w (at most 64 bits) is the k-th digit of w in base 256. The digits of
+// each word are introduced once, as fresh bytes tied to the word by one linear fact, instead of div/mod terms.
+func (ex *Exec) byteOfWord(x *Term) *Term {
+	w, k := x, 0
+	if x.op == "div" && x.args[1].IsConst() {
+		d := x.args[1].val
+		if d.Sign() <= 0 || new(big.Int).And(d, new(big.Int).Sub(d, bi(1))).Sign() != 0 || (d.BitLen()-1)%8 != 0 {
+			return nil
+		}
+		w, k = x.args[0], (d.BitLen()-1)/8
+	}
+	uw := ex.upper(w)
+	if w.IsConst() || uw == nil || uw.Cmp(pow2(64)) > 0 || k > 7 {
+		return nil
+	}
+	if ex.wordBytesOf == nil {
+		ex.wordBytesOf = map[*Term][]*Term{}
+	}
+	ds, ok := ex.wordBytesOf[w]
+	if !ok {
+		var parts []*Term
+		for i := 0; i < 8; i++ {
+			b := ex.freshWord("digit", u8t)
+			ds = append(ds, b)
+			parts = append(parts, Mul(IntC(pow2(8*i)), b))
+		}
+		ex.st.addFact(Eq(Add(parts...), w), "base-256 digits of a word")
+		ex.wordBytesOf[w] = ds
+	}
+	return ds[k]
+}
+
+// tzBits: a lower bound on the number of trailing zero bits of the (non-negative) integer term t.
+func tzBits(t *Term, depth int) int {
+	if depth > 6 {
+		return 0
+	}
+	switch {
+	case t.IsConst():
+		if t.val.Sign() == 0 {
+			return 1 << 20
+		}
+		return int(t.val.TrailingZeroBits())
+	case t.op == "*":
+		n := 0
+		for _, a := range t.args {
+			n += tzBits(a, depth+1)
+		}
+		return n
+	case t.op == "+":
+		n := 1 << 20
+		for _, a := range t.args {
+			if k := tzBits(a, depth+1); k < n {
+				n = k
+			}
+		}
+		return n
+	case t.op == "mod" && t.args[1].IsConst() && t.args[1].val.Sign() > 0:
+		// x mod 2^w keeps the low w bits
+		if m := t.args[1].val; new(big.Int).And(m, new(big.Int).Sub(m, bi(1))).Sign() == 0 {
+			k := tzBits(t.args[0], depth+1)
+			if w := m.BitLen() - 1; k > w {
+				k = w
+			}
+			return k
+		}
+	case t.op == "ite":
+		a, b := tzBits(t.args[1], depth+1), tzBits(t.args[2], depth+1)
+		if a < b {
+			return a
+		}
+		return b
+	}
+	return 0
+}
+
+// bitSpecial handles the bit-operator shapes that integer mode can treat exactly: a mask operand that is
+// if-then-else of all-zeros / all-ones (what -flag and flag*0xff..ff produce), and operands with disjoint bits
+// (x<<k | small, the byte-assembly idiom).
+func (ex *Exec) bitSpecial(op token.Token, x, y *Term, mt mtype) *Term {
+	if mt.Signed || mt.W == 0 {
+		return nil
+	}
+	ones := new(big.Int).Sub(pow2(mt.W), bi(1))
+	isMask := func(t *Term) bool {
+		if t.op != "ite" || !t.args[1].IsConst() || !t.args[2].IsConst() {
+			return false
+		}
+		for _, k := range []*big.Int{t.args[1].val, t.args[2].val} {
+			if k.Sign() != 0 && k.Cmp(ones) != 0 {
+				return false
+			}
+		}
+		return true
+	}
+	// value of (v op k) for k in {0, ones}; maskLeft: the mask is the left operand
+	withConst := func(v *Term, k *big.Int, maskLeft bool) *Term {
+		zero := k.Sign() == 0
+		switch op {
+		case token.AND:
+			if zero {
+				return IntI(0)
+			}
+			return v
+		case token.OR:
+			if zero {
+				return v
+			}
+			return IntC(ones)
+		case token.XOR:
+			if zero {
+				return v
+			}
+			return Sub(IntC(ones), v)
+		case token.AND_NOT:
+			if maskLeft { // k &^ v
+				if zero {
+					return IntI(0)
+				}
+				return Sub(IntC(ones), v)
+			}
+			if zero { // v &^ 0
+				return v
+			}
+			return IntI(0)
+		}
+		return nil
+	}
+	if isMask(y) {
+		return Ite(y.args[0], withConst(x, y.args[1].val, false), withConst(x, y.args[2].val, false))
+	}
+	if isMask(x) {
+		return Ite(x.args[0], withConst(y, x.args[1].val, true), withConst(y, x.args[2].val, true))
+	}
+	// disjoint bits
+	if op == token.OR || op == token.XOR || op == token.AND {
+		for _, pr := range [][2]*Term{{x, y}, {y, x}} {
+			hi, lo := pr[0], pr[1]
+			ul := ex.upper(lo)
+			if ul == nil || ul.Sign() <= 0 {
+				continue
+			}
+			need := new(big.Int).Sub(ul, bi(1)).BitLen()
+			if hi.IsConst() && lo.IsConst() {
+				continue
+			}
+			if tzBits(hi, 0) >= need {
+				if uh := ex.upper(hi); uh == nil || uh.Cmp(pow2(mt.W)) > 0 {
+					continue
+				}
+				if op == token.AND {
+					return IntI(0)
+				}
+				return Add(hi, lo)
+			}
+		}
+	}
+	return nil
 }
